@@ -1,5 +1,5 @@
 (* Driver for the extracted model: reads "cmd hexarg hexarg ..." lines, prints one answer line.
-   "-" stands for an empty argument.  All interpretation happens in the extracted Gallina [run]. *)
+   "-" stands for an empty argument.  All interpretation happens in the extracted Gallina [pelmodel_entry]. *)
 open Pelmodel
 
 let rec pos_of_int n = if n = 1 then XH else if n land 1 = 1 then XI (pos_of_int (n lsr 1)) else XO (pos_of_int (n lsr 1))
@@ -28,7 +28,7 @@ let () =
     (match String.split_on_char ' ' line with
      | [] | [""] -> print_newline ()
      | cmd :: args ->
-        let out = run (text_of_string cmd) (List.map bytes_of_hex (List.filter (fun w -> w <> "") args)) in
+        let out = pelmodel_entry (text_of_string cmd) (List.map bytes_of_hex (List.filter (fun w -> w <> "") args)) in
         Buffer.clear buf;
         List.iter (fun n -> Buffer.add_char buf (Char.chr (int_of_n n land 255))) out;
         print_string (Buffer.contents buf); print_newline ());
